@@ -92,7 +92,9 @@ func HarnessC19_soup() {
 	before := c19Docs(p)
 	a := c19Out(p)
 	vAssert("C19.soup.docs.unchanged", vEq(before, c19Docs(p)))
+	vOrderGlobal(1)
 	b := c19Out(p)
+	vOrderGlobal(0)
 	vAssert("C19.soup.repeatable.status", a.err == b.err)
 	if !a.err {
 		vAssert("C19.soup.repeatable.output", vEq(a.outs, b.outs))
